@@ -344,7 +344,13 @@ impl<Hash: NewBytes + ResizableBytes + Zeroize, Salt: NewBytes + ResizableBytes 
         let (t_cost, m_cost) =
             crypto_pwhash::convert_costs(self.config.opslimit, self.config.memlimit);
 
-        crypto_pwhash::pwhash_to_string(t_cost, m_cost, self.salt.as_slice(), self.hash.as_slice())
+        crypto_pwhash::pwhash_to_string(
+            &self.config.algorithm,
+            t_cost,
+            m_cost,
+            self.salt.as_slice(),
+            self.hash.as_slice(),
+        )
     }
 }
 
